@@ -297,6 +297,66 @@ def gen_program(rng, size, fuel):
     return dict(text=text, words=words, inp=ref['inputs'], insts=resolve(items), ref=ref, attempts=attempt + 1)
   raise RuntimeError('program generator: no valid program in 200 attempts')
 
+FAR_OFFSETS = [2044, 2048, 2052, 2560, 3000, 3584, 4088, 4092, -2044, -2048, -2052, -2560, -3000, -3584, -4092, -4096]
+NEAR_OFFSETS = [1024, 1536, 2040, -1024, -1536, -2040, 512, -512]
+
+def gen_far_program(rng, fuel):
+  """"far branch" family: a few short segments scattered over up to ~1800 instruction slots (the text region is
+  0x200..0x1fff), visited by TAKEN bne instructions whose byte offsets are drawn from FAR_OFFSETS (|offset| around and
+  above 2048, where bit 11 and bit 12 of the B-immediate differ, up to the extremes -4096 / +4092), plus not-taken far
+  branches. Every other slot holds the filler `addi x30, x30, 1`, so a branch to a wrong target either changes x30 / the
+  segment trace or never reaches the epilogue. Same result dict as gen_program."""
+  for attempt in range(200):
+    N = rng.randint(1300, 1800)
+    filler = ('addi', 30, 30, 0, 1)
+    slots = [None] * N
+    epi = [('csrw', 0, r, 0, 0x7C0) for r in range(1, 32)]
+    E = len(epi); lim = N - E
+    def place(at, seg):
+      if at < 0 or at + len(seg) > lim or any(slots[k] is not None for k in range(at, at + len(seg))): return False
+      slots[at:at + len(seg)] = seg; return True
+    def segment(sid):
+      seg = [('addi', 5, 5, 0, sid)]
+      c = rng.random()
+      if c < 0.4: seg.append(('sw', 0, 2, 5, 4 * rng.randint(-6, 6)))
+      elif c < 0.6: seg.append(('lw', 6, 2, 0, 4 * rng.randint(-6, 6)))
+      seg.append(('csrw', 0, 5, 0, 0x7C0))
+      if rng.random() < 0.5: seg.append(('bne', 0, 0, 0, rng.choice(FAR_OFFSETS)))      # far, never taken
+      return seg
+    pro = [('addi', 1, 0, 0, 1), ('csrr', 2, 0, 0, 0xFC0)]
+    at = 0; seg = pro + segment(1); ok = place(0, seg); hops = []
+    nseg = rng.randint(3, 7)
+    for sid in range(2, nseg + 2):
+      bne_at = at + len(seg)                            # slot of the branch that leaves the current segment
+      nxt = segment(sid)
+      cands = rng.sample(FAR_OFFSETS, len(FAR_OFFSETS)) + rng.sample(NEAR_OFFSETS, len(NEAR_OFFSETS))
+      for d in cands:
+        if slots[bne_at] is None and place(bne_at + d // 4, nxt):
+          slots[bne_at] = ('bne', 0, *rng.choice([(1, 0), (0, 1), (5, 0)]), d)
+          hops.append(d); at = bne_at + d // 4; seg = nxt; break
+      else:
+        ok = False; break
+    if not ok or not any(abs(d) >= 2048 for d in hops): continue
+    bne_at = at + len(seg)
+    if slots[bne_at] is not None: continue
+    slots[bne_at] = ('bne', 0, 1, 0, 4 * (lim - bne_at))  # last hop: forward to the epilogue
+    hops.append(4 * (lim - bne_at))
+    slots[lim:] = epi
+    items = [x if x is not None else filler for x in slots]
+    data = [rng.getrandbits(32) for _ in range(NDATA)]
+    text = to_text(items, data)
+    img = assemble(text)
+    words = image_words(img)
+    mem = bytearray(1 << 20)
+    for a, w in words: mem[a:a + 4] = w.to_bytes(4, 'little')
+    ref = isa_run(mem, input_policy(rng), fuel)
+    if ref['stop'] != 'illegal' or ref['pc'] != TEXT + 4 * N: continue
+    if any(not (DATA <= a < DATA + 4 * NDATA) for a in ref['stores']): continue
+    ref['mem'] = bytes(mem)
+    insts = [(TEXT + 4 * k, *it) for k, it in enumerate(items)]
+    return dict(text=text, words=words, inp=ref['inputs'], insts=insts, ref=ref, attempts=attempt + 1, hops=hops)
+  raise RuntimeError('far-branch generator: no valid program in 200 attempts')
+
 #=========================================================================
 # Running the real processors
 #=========================================================================
